@@ -80,6 +80,9 @@ pub enum EvKind {
     Finish,
     /// the rig's counting waker was woken (by the thread of `actor`, if it is one)
     Wake,
+    /// the rig's second waker was woken: the one handed to an EARLIER poll of the driver, which the
+    /// driver's task no longer listens to (`Rig::stale_waker`)
+    StaleWake,
     /// observation made by the controller at a decision point (attributed to the segment before)
     Obs(String),
 }
@@ -138,6 +141,8 @@ pub struct Rig {
     /// free mode: relaxed stamp for hook passages and wakes
     seq: AtomicU64,
     wakes: AtomicU64,
+    /// wakes of the stale waker
+    stale_wakes: AtomicU64,
     last_wake_seq: AtomicU64,
     /// free mode: start line
     arrived: AtomicUsize,
@@ -289,6 +294,7 @@ impl Rig {
             abort: AtomicBool::new(false),
             seq: AtomicU64::new(0),
             wakes: AtomicU64::new(0),
+            stale_wakes: AtomicU64::new(0),
             last_wake_seq: AtomicU64::new(u64::MAX),
             arrived: AtomicUsize::new(0),
             n_actors,
@@ -472,8 +478,13 @@ impl Rig {
     pub fn wakes(&self) -> u64 {
         self.wakes.load(Ordering::SeqCst)
     }
+    /// wakes of the stale waker counted so far (both modes)
+    pub fn stale_wakes(&self) -> u64 {
+        self.stale_wakes.load(Ordering::SeqCst)
+    }
     pub fn reset_wakes(&self) {
         self.wakes.store(0, Ordering::SeqCst);
+        self.stale_wakes.store(0, Ordering::SeqCst);
         self.last_wake_seq.store(u64::MAX, Ordering::SeqCst);
     }
     /// free mode: stamp of the latest wake (u64::MAX = none)
@@ -483,12 +494,20 @@ impl Rig {
 
     /// The waker of "the driver's task": counts wakes; in forced mode every wake is an event.
     pub fn waker(self: &Arc<Self>) -> Waker {
-        Waker::from(Arc::new(RigWaker { rig: self.clone() }))
+        Waker::from(Arc::new(RigWaker { rig: self.clone(), stale: false }))
+    }
+
+    /// A second waker, for an earlier poll of the driver made on behalf of another task (or through a
+    /// combinator that hands out its own wakers): `will_wake` between the two is false, its wakes are
+    /// counted apart (`stale_wakes`, `EvKind::StaleWake`) and never count as a wake of the driver's task.
+    pub fn stale_waker(self: &Arc<Self>) -> Waker {
+        Waker::from(Arc::new(RigWaker { rig: self.clone(), stale: true }))
     }
 }
 
 struct RigWaker {
     rig: Arc<Rig>,
+    stale: bool,
 }
 
 impl Wake for RigWaker {
@@ -497,16 +516,22 @@ impl Wake for RigWaker {
     }
     fn wake_by_ref(self: &Arc<Self>) {
         let rig = &self.rig;
-        rig.wakes.fetch_add(1, Ordering::Relaxed);
+        if self.stale {
+            rig.stale_wakes.fetch_add(1, Ordering::Relaxed);
+        } else {
+            rig.wakes.fetch_add(1, Ordering::Relaxed);
+        }
         match rig.mode {
             Mode::Free => {
-                let s = rig.seq.fetch_add(1, Ordering::Relaxed);
-                rig.last_wake_seq.store(s, Ordering::Relaxed);
+                if !self.stale {
+                    let s = rig.seq.fetch_add(1, Ordering::Relaxed);
+                    rig.last_wake_seq.store(s, Ordering::Relaxed);
+                }
             }
             Mode::Forced => {
                 let actor = CTX.with(|c| c.borrow().as_ref().filter(|x| Arc::ptr_eq(&x.rig, rig)).map(|x| x.actor));
                 let mut st = lock(&rig.st);
-                st.push(actor, EvKind::Wake);
+                st.push(actor, if self.stale { EvKind::StaleWake } else { EvKind::Wake });
             }
         }
     }
